@@ -8,6 +8,10 @@ mod props;
 use fw::driver;
 
 fn main() {
+    // debugging aid only (never set by registered commands): VERIF_TRACE=<env-filter> prints the subject's tracing output
+    if let Ok(f) = std::env::var("VERIF_TRACE") {
+        let _ = tracing_subscriber::fmt().with_env_filter(f).with_writer(std::io::stderr).try_init();
+    }
     let argv: Vec<String> = std::env::args().skip(1).collect();
     let args = match driver::parse_args(&argv) {
         Ok(a) => a,
